@@ -787,3 +787,14 @@ def summarize(env):
             flds["<list>"] = [s(x, d + 1) for x in list.__iter__(v)]
         return {type(v).__name__: flds}
     return {k: s(v) for k, v in env.items()}
+
+
+@native_spec("builtins_dict")
+def _n_builtins_dict(ne):
+    import builtins
+    return builtins.__dict__
+
+
+@native_spec("dict_nonempty")
+def _n_dict_nonempty(ne, d):
+    return len(d) > 0
